@@ -570,6 +570,46 @@ func runC09(c *core.Ctx) {
 			deliver(1, fmt.Sprintf("dict-retrievalmethod variant=%d #%d %s", variant, di, truncate(d, 30)), so.Bytes(el))
 		}
 	}
+	// (c) every algorithm identifier of the dictionary in every position of a response that names an algorithm
+	{
+		o.Reset()
+		encBase, _ := c09BuildResponse(o, 0, 1, true, true, 1)
+		o.Reset()
+		sigBase, _ := c09BuildResponse(o, 0, 2, false, true, 1)
+		type pos struct {
+			base []byte
+			path string
+		}
+		poss := []pos{
+			{encBase, "./EncryptedAssertion/EncryptedData/EncryptionMethod"},
+			{encBase, "./EncryptedAssertion/EncryptedData/KeyInfo/EncryptedKey/EncryptionMethod"},
+			{encBase, "./EncryptedAssertion/EncryptedData/KeyInfo/EncryptedKey/EncryptionMethod/DigestMethod"},
+			{sigBase, "./Signature/SignedInfo/SignatureMethod"},
+			{sigBase, "./Signature/SignedInfo/CanonicalizationMethod"},
+			{sigBase, "./Signature/SignedInfo/Reference/DigestMethod"},
+			{sigBase, "./Signature/SignedInfo/Reference/Transforms/Transform"},
+			{sigBase, "./Assertion/Signature/SignedInfo/SignatureMethod"},
+			{sigBase, "./Assertion/Signature/SignedInfo/Reference/DigestMethod"},
+		}
+		for pi, ps := range poss {
+			for ui, uri := range algURIs {
+				if !mine() || ps.base == nil {
+					continue
+				}
+				el, perr := so.Parse(ps.base)
+				if perr != nil {
+					continue
+				}
+				t := el.FindElement(ps.path)
+				if t == nil {
+					c.Count("algorithm_dictionary_position_missing")
+					continue
+				}
+				t.CreateAttr("Algorithm", uri)
+				deliver(1|4, fmt.Sprintf("dict-algorithm pos=%d %s #%d %q", pi, ps.path[strings.LastIndex(ps.path, "/")+1:], ui, uri), so.Bytes(el))
+			}
+		}
+	}
 	// base64 framings on the POST entry point
 	if len(signedCorpus) > 0 {
 		good := signedCorpus[0]
@@ -766,6 +806,20 @@ func c09Resolver(c *core.Ctx, o *so.Oracle, sp *saml.ServiceProvider, corpus [][
 			return so.OK200(so.Bytes(el))
 		}})
 	}
+	// declared lengths that do not match what is sent
+	for _, cl := range []int64{1 << 62, 768 << 20, -1, -5, 0, 3, 1 << 31} {
+		cl := cl
+		behs = append(behs, beh{fmt.Sprintf("content-length-%d-good-body", cl), func(id string, _ *http.Request, _ []byte) (*http.Response, error) {
+			r := so.HTTPResponse(200, bytes.NewReader(good(id)))
+			r.ContentLength = cl
+			r.Header.Set("Content-Length", fmt.Sprint(cl))
+			return r, nil
+		}}, beh{fmt.Sprintf("content-length-%d-short-body", cl), func(id string, _ *http.Request, _ []byte) (*http.Response, error) {
+			r := so.HTTPResponse(200, &so.ErrReader{Data: []byte("<soapenv:Envelo"), N: 14})
+			r.ContentLength = cl
+			return r, nil
+		}})
+	}
 	for _, st := range []int{204, 301, 302, 400, 403, 404, 500, 503} {
 		st := st
 		behs = append(behs, beh{fmt.Sprintf("status-%d", st), func(id string, _ *http.Request, _ []byte) (*http.Response, error) {
@@ -782,7 +836,7 @@ func c09Resolver(c *core.Ctx, o *so.Oracle, sp *saml.ServiceProvider, corpus [][
 			if b.name == "good" && err != nil {
 				c.Inconclusive("resolver positive control rejected: " + err.(*saml.InvalidResponseError).PrivateErr.Error())
 			}
-			if b.name != "good" && !strings.Contains(b.name, "wrong-version") && err == nil { // the Version of the envelope is not something C09 (or the SP) judges
+			if b.name != "good" && !strings.Contains(b.name, "wrong-version") && !strings.Contains(b.name, "good-body") && err == nil { // the Version of the envelope is not something C09 (or the SP) judges
 				c.Violation("C09/resolver-fault-accepted/"+b.name, "assertion returned although artifact resolution "+b.name, nil)
 			}
 		}
